@@ -28,6 +28,7 @@ def main():
         ctx.budget_s = job.get("budget_s")
         ctx.params = job.get("params", {})
         ctx.events_path = job["out"] + ".events"
+        ctx.partial_path = job["out"] + ".partial"
         mod = importlib.import_module(f"rv.props.{job['prop'].lower()}")
         if job.get("replay") is not None:
             mod.replay(ctx, job["replay"])
